@@ -510,6 +510,156 @@ def unrep_mode_rule(rep, g):
     rep.floor("C12.k", n, 2)
 
 
+class _StrEval:
+    """evaluates a pointer-walking string function's statement tree over concrete small strings: pointers are
+    (buffer name, index) pairs, a buffer reads 0 at and past its end; anything else is unmodelled (analysis-broken)."""
+    class Ret(Exception):
+        def __init__(self, v):
+            self.v = v
+
+    def __init__(self, bufs, params):
+        self.bufs, self.env, self.steps = bufs, dict(params), 0
+
+    def rd(self, p):
+        b = self.bufs[p[0]]
+        if p[1] < 0 or p[1] > len(b):
+            raise AnalysisBroken("string walk reads outside its buffer (index %d of %d)" % (p[1], len(b)))
+        return ord(b[p[1]]) if p[1] < len(b) else 0
+
+    def lv(self, x):
+        if x[0] == "l":
+            return x[1]
+        if x[0] == "p":
+            return x[2]
+        raise AnalysisBroken("string walk: unmodelled assignment target %s" % x[0])
+
+    def ev(self, x):
+        t = x[0]
+        if t == "i":
+            return x[1]
+        if t in ("l", "p"):
+            return self.env[self.lv(x)]
+        if t == "cast":
+            return self.ev(x[2])
+        if t == "u":
+            op = x[1]
+            if op in ("++", "++pre", "++post", "--", "--pre", "--post"):
+                k = self.lv(x[2])
+                old = self.env[k]
+                d = 1 if op[0] == "+" else -1
+                new = (old[0], old[1] + d) if isinstance(old, tuple) else old + d
+                self.env[k] = new
+                return old if op.endswith("post") else new
+            v = self.ev(x[2])
+            if op == "*":
+                return self.rd(v)
+            if op == "!":
+                return 0 if (v[1] >= 0 if isinstance(v, tuple) else v) else 1
+            if op == "-":
+                return -v
+            raise AnalysisBroken("string walk: unmodelled unary %s" % op)
+        if t == "x":
+            b, i = self.ev(x[1]), self.ev(x[2])
+            return self.rd((b[0], b[1] + i))
+        if t == "b":
+            op = x[1]
+            if op == "=":
+                v = self.ev(x[3])
+                self.env[self.lv(x[2])] = v
+                return v
+            if op == "&&":
+                return 1 if (self.ev(x[2]) and self.ev(x[3])) else 0
+            if op == "||":
+                return 1 if (self.ev(x[2]) or self.ev(x[3])) else 0
+            a, b = self.ev(x[2]), self.ev(x[3])
+            if op in ("+", "-"):
+                if isinstance(a, tuple) and isinstance(b, tuple):
+                    if op == "-" and a[0] == b[0]:
+                        return a[1] - b[1]
+                    raise AnalysisBroken("string walk: pointer arithmetic across buffers")
+                if isinstance(a, tuple):
+                    return (a[0], a[1] + (b if op == "+" else -b))
+                return a + b if op == "+" else a - b
+            if isinstance(a, tuple) or isinstance(b, tuple):
+                if isinstance(a, tuple) and isinstance(b, tuple) and a[0] == b[0]:
+                    a, b = a[1], b[1]
+                else:
+                    raise AnalysisBroken("string walk: pointer compared with a non-pointer")
+            return int({"==": a == b, "!=": a != b, "<": a < b, "<=": a <= b, ">": a > b, ">=": a >= b}[op]) if op in ("==", "!=", "<", "<=", ">", ">=") \
+                else self._arith(op, a, b)
+        if t == "c" and isinstance(x[1], str) and x[1].endswith("::stringLen"):
+            p_ = self.ev(x[3][0])
+            return len(self.bufs[p_[0]]) - p_[1]
+        raise AnalysisBroken("string walk: unmodelled expression %s" % t)
+
+    def _arith(self, op, a, b):
+        raise AnalysisBroken("string walk: unmodelled operator %s" % op)
+
+    def run(self, s):
+        if s is None:
+            return
+        self.steps += 1
+        if self.steps > 20000:
+            raise AnalysisBroken("string walk does not terminate on a small input")
+        t = s[0]
+        if t == "block":
+            for k in s[1]:
+                self.run(k)
+        elif t == "decl":
+            for name, _ty, init, _n in s[1]:
+                self.env[name] = self.ev(init) if init is not None else 0
+        elif t == "expr":
+            self.ev(s[1])
+        elif t == "if":
+            self.run(s[2] if self.ev(s[1]) else s[3])
+        elif t == "while":
+            while self.ev(s[1]):
+                self.run(s[2])
+                self.steps += 1
+                if self.steps > 20000:
+                    raise AnalysisBroken("string walk does not terminate on a small input")
+        elif t == "return":
+            raise _StrEval.Ret(self.ev(s[1]))
+        else:
+            raise AnalysisBroken("string walk: unmodelled statement %s" % t)
+
+
+def terminator_search_rule(rep):
+    import itertools
+    rep.rule("C12.m", "the serializer finds every terminator in the data it is about to write verbatim: `]]>` in CDATA sections, `?>` in "
+             "processing instructions and `--` in comments are located with XMLString::patternMatch, whose statement tree is evaluated "
+             "here for the three terminator shapes over every string of up to 6 characters of a 3-letter alphabet (1092 x 3) and "
+             "compared with the first-occurrence index — a search that loses a match overlapping a failed partial match (`]]]>`) lets "
+             "the terminator through and the output does not re-parse")
+    g = core.run_xa([os.path.join(core.REPO, "src/xercesc/util/XMLString.cpp")], st=r"^XMLString::patternMatch$", flat=False)
+    body = g.st("XMLString::patternMatch")["body"]
+    users = 0
+    f = core.library_facts()
+    for x in f.kind("call"):
+        if x["x"][1] == "XMLString::patternMatch" and x["_fn"].get("cls") == "DOMLSSerializerImpl":
+            users += 1
+    rep.floor("C12.m", users, 1)
+    n = 0
+    for pat, what in (("aab", "]]> (CDATA end)"), ("ab", "?> (PI end)"), ("aa", "-- (comment)")):
+        bad = []
+        for ln in range(0, 7):
+            for tup in itertools.product("abc", repeat=ln):
+                text = "".join(tup)
+                e = _StrEval({"T": text, "P": pat}, {"toSearch": ("T", 0), "pattern": ("P", 0)})
+                try:
+                    e.run(body)
+                    got = None
+                except _StrEval.Ret as r:
+                    got = r.v
+                n += 1
+                if got != text.find(pat):
+                    bad.append("in %r: %s, first occurrence is at %d" % (text, got, text.find(pat)))
+        rep.ob("C12.m", "patternMatch/%s" % pat, not bad, "first occurrence found in all 1093 strings" if not bad else
+               "XMLString::patternMatch, terminator shape %s written as %r over the alphabet a,b,c: %s (+%d more)" % (what, pat, bad[0], len(bad) - 1),
+               "src/xercesc/util/XMLString.cpp")
+    rep.floor("C12.m", n, 3000)
+
+
 def run(rep):
     f = core.library_facts()
     g = core.run_xa([os.path.join(core.REPO, SER), os.path.join(core.REPO, FMT)],
@@ -523,6 +673,7 @@ def run(rep):
     charref_rule(rep, f)
     split_rule(rep)
     write_state_rule(rep, f)
+    terminator_search_rule(rep)
     unrep_mode_rule(rep, g)
     from . import C13
     C13.attr_identity_rule(rep, "C12.l")
